@@ -138,6 +138,7 @@ func errMatches(got error, kind int, delivered int) bool {
 func checkGenKey(c *Case, v *Verdict) {
 	op := c.Op
 	p := prepare(op)
+	defer p.G.Release()
 	out := execOp(p)
 	v.Pts, v.Calls = out.Pts, 1
 	dev := out.Dev
@@ -264,7 +265,7 @@ func coherent(v *Verdict, pub, priv []byte, act string) bool {
 
 // ---------------------------------------------------------------- C14: accessors as a state machine
 
-const nAccSteps = 12
+const nAccSteps = 13
 
 func checkAccessors(c *Case, v *Verdict) {
 	r := NewRng(c.Seed, lbl("acc"))
@@ -415,6 +416,40 @@ func checkAccessors(c *Case, v *Verdict) {
 			model = append([]byte{}, priv...)
 			lastPub, lastSeed = nil, nil
 			v.probe("generated-key")
+		case 12:
+			// a key derived from a seed that sits inside a larger caller buffer
+			// (spare capacity behind it) must be a fresh object and must leave
+			// the buffer alone
+			var g Guard
+			buf := g.Buf(k.Seed())
+			g.Seal()
+			var k2 ed25519.PrivateKey
+			faulted := func() (f bool) {
+				defer func() {
+					if recover() != nil {
+						f = true
+					}
+				}()
+				k2 = ed25519.NewKeyFromSeed(buf)
+				return false
+			}()
+			intact := g.Intact()
+			if faulted || !intact {
+				g.Release()
+				fail("seed-buffer", "caller's buffer untouched", "modified", "NewKeyFromSeed wrote into the caller's seed buffer (spare capacity)")
+				return
+			}
+			if !bytes.Equal(k2, model) {
+				g.Release()
+				fail("seed-buffer-key", hx(model), hx(k2), "NewKeyFromSeed of a sub-slice seed derived a different key")
+				return
+			}
+			g.Release() // the key must survive the disappearance of the seed buffer: it may not alias it
+			if cap(k2) >= 64 && !bytes.Equal(k2[:64], model) {
+				fail("seed-buffer-alias", hx(model), hx(k2), "derived key aliases the seed buffer")
+				return
+			}
+			v.probe("seed-with-spare-capacity")
 		case 11:
 			// two accessor results must not alias each other either
 			a, _ := k.Public().(ed25519.PublicKey)
